@@ -767,10 +767,12 @@ def c20_matchers(v, text="", ref=None, rhs_row=None, ode=None, evalf=None, **kw)
     import sympy
 
     d = v.get("detail", {})
+    if v.get("kind") in ("rhs_matrix_raises", "jacobi_matrix_raises") and "Invalid comparison of non-real zoo" in (d.get("exc") or "") and re.search(r"(?<![\w.])0(\.0*)?\s*[*/]", text):
+        # a condition that holds an unevaluated product / quotient with the literal factor 0: sympy's canonicalisation of
+        # the relation divides by that coefficient when the intermediates are substituted
+        return "C20-literal-zero-factor-in-a-condition-makes-sympy-raise"
     if v.get("kind") == "jacobian_entry" and isinstance(d.get("got"), float) and math.isnan(d["got"]) and rhs_row is not None and evalf is not None and d.get("point"):
         for pw in rhs_row.atoms(sympy.Pow):
-            if pw.exp.is_Integer and pw.exp >= 1:
-                continue
             try:
                 b = evalf(pw.base, ode, d["point"])
             except Exception:
